@@ -183,7 +183,7 @@ where
         st.evals += 1;
         let rp = json!({"kind":"conv-in","target":T::NAME,"source":P::PNAME,"input":p.describe()});
         let Some(r) = r else {
-            rep.violation(
+            crate::viol!(rep, 
                 format!("{}:panic:conv-in:{}<-{}", mode.id(), T::NAME, P::PNAME),
                 format!("{}::try_from({}{}) panicked", T::NAME, p.describe(), P::PNAME),
                 rp,
@@ -194,7 +194,7 @@ where
             Some(x) => {
                 st.accepted += 1;
                 if mode == Mode::C04 && x.val() > T::MAXV {
-                    rep.violation(
+                    crate::viol!(rep, 
                         format!("C04:out-of-range:conv-in:{}<-{}", T::NAME, P::PNAME),
                         format!(
                             "{}::try_from({} as {}) produced {:?} (> {})",
@@ -208,7 +208,7 @@ where
                     );
                 }
                 if !should_ok {
-                    rep.violation(
+                    crate::viol!(rep, 
                         format!("{}:accepts-out-of-range:conv-in:{}<-{}", mode.id(), T::NAME, P::PNAME),
                         format!(
                             "{}::try_from({} as {}) succeeded with {:?} although the value is outside 0..={}",
@@ -221,7 +221,7 @@ where
                         rp,
                     );
                 } else if mode == Mode::C05 && Some(x.val()) != small {
-                    rep.violation(
+                    crate::viol!(rep, 
                         format!("C05:value-changed:conv-in:{}<-{}", T::NAME, P::PNAME),
                         format!("{}::try_from({} as {}) = {:?}", T::NAME, p.describe(), P::PNAME, x),
                         rp,
@@ -231,7 +231,7 @@ where
             None => {
                 st.rejected += 1;
                 if should_ok {
-                    rep.violation(
+                    crate::viol!(rep, 
                         format!("{}:rejects-in-range:conv-in:{}<-{}", mode.id(), T::NAME, P::PNAME),
                         format!("{}::try_from({} as {}) failed although the value is in range", T::NAME, p.describe(), P::PNAME),
                         rp,
@@ -275,14 +275,14 @@ where
         st.evals += 1;
         let rp = json!({"kind":"conv-out","source":T::NAME,"target":O::ONAME,"input":v});
         match r {
-            None => rep.violation(
+            None => crate::viol!(rep, 
                 format!("{}:panic:conv-out:{}->{}", mode.id(), T::NAME, O::ONAME),
                 format!("{}::from({:?}) panicked", O::ONAME, t),
                 rp,
             ),
             Some(o) => {
                 if mode == Mode::C05 && o.as_u32_exact() != Some(v) {
-                    rep.violation(
+                    crate::viol!(rep, 
                         format!("C05:value-changed:conv-out:{}->{}", T::NAME, O::ONAME),
                         format!("{}::from({:?}) = {:?}", O::ONAME, t, o),
                         rp,
@@ -304,14 +304,14 @@ fn ctor_and_consts<T: NT>(mode: Mode, rep: &mut Report, st: &mut Stats) {
             Ok(x) => {
                 if v > T::MAXV {
                     if mode == Mode::C04 {
-                        rep.violation(
+                        crate::viol!(rep, 
                             format!("C04:new-does-not-panic:{}", T::NAME),
                             format!("{}::new({}) returned {:?} instead of panicking (max {})", T::NAME, v, x, T::MAXV),
                             rp,
                         );
                     }
                 } else if x.val() != v {
-                    rep.violation(
+                    crate::viol!(rep, 
                         format!("{}:new-value:{}", mode.id(), T::NAME),
                         format!("{}::new({}) = {:?}", T::NAME, v, x),
                         rp,
@@ -320,7 +320,7 @@ fn ctor_and_consts<T: NT>(mode: Mode, rep: &mut Report, st: &mut Stats) {
             }
             Err(msg) => {
                 if v <= T::MAXV {
-                    rep.violation(
+                    crate::viol!(rep, 
                         format!("{}:new-panics-in-range:{}", mode.id(), T::NAME),
                         format!("{}::new({}) panicked: {}", T::NAME, v, msg),
                         rp,
@@ -337,14 +337,14 @@ fn ctor_and_consts<T: NT>(mode: Mode, rep: &mut Report, st: &mut Stats) {
     match r {
         Some((mn, mx, df)) => {
             if mn.val() != 0 || mx.val() != T::MAXV || df != mn {
-                rep.violation(
+                crate::viol!(rep, 
                     format!("{}:constants:{}", mode.id(), T::NAME),
                     format!("{}: MIN={:?} MAX={:?} Default={:?}", T::NAME, mn, mx, df),
                     json!({"kind":"constants","type":T::NAME}),
                 );
             }
         }
-        None => rep.violation(
+        None => crate::viol!(rep, 
             format!("{}:panic:constants:{}", mode.id(), T::NAME),
             "constants panicked".to_string(),
             json!({"kind":"constants","type":T::NAME}),
@@ -375,28 +375,28 @@ fn parse_one<T: NT>(mode: Mode, s: &str, rep: &mut Report, st: &mut Stats) {
     let exp = recognise(s).filter(|v| *v <= T::MAXV as u64);
     let rp = json!({"kind":"parse","type":T::NAME,"input":s});
     match r {
-        None => rep.violation(
+        None => crate::viol!(rep, 
             format!("{}:panic:parse:{}", mode.id(), T::NAME),
             format!("{:?}.parse::<{}>() panicked", s, T::NAME),
             rp,
         ),
         Some(Some(x)) => {
             if mode == Mode::C04 && x.val() > T::MAXV {
-                rep.violation(
+                crate::viol!(rep, 
                     format!("C04:out-of-range:parse:{}", T::NAME),
                     format!("{:?}.parse::<{}>() = {:?}", s, T::NAME, x),
                     rp.clone(),
                 );
             }
             match exp {
-                None => rep.violation(
+                None => crate::viol!(rep, 
                     format!("{}:parse-accepts:{}", mode.id(), T::NAME),
                     format!("{:?}.parse::<{}>() = {:?} but the string is not an in-range unsigned decimal numeral", s, T::NAME, x),
                     rp,
                 ),
                 Some(v) => {
                     if mode == Mode::C05 && x.val() as u64 != v {
-                        rep.violation(
+                        crate::viol!(rep, 
                             format!("C05:parse-value:{}", T::NAME),
                             format!("{:?}.parse::<{}>() = {:?}, expected {}", s, T::NAME, x, v),
                             rp,
@@ -407,7 +407,7 @@ fn parse_one<T: NT>(mode: Mode, s: &str, rep: &mut Report, st: &mut Stats) {
         }
         Some(None) => {
             if exp.is_some() {
-                rep.violation(
+                crate::viol!(rep, 
                     format!("{}:parse-rejects:{}", mode.id(), T::NAME),
                     format!("{:?}.parse::<{}>() failed but the numeral is in range", s, T::NAME),
                     rp,
@@ -464,6 +464,29 @@ fn parsing<T: NT>(mode: Mode, rep: &mut Report, st: &mut Stats, full: bool) -> u
         parse_one::<T>(mode, s, rep, st);
         n += 1;
     }
+    if full {
+        // every Unicode scalar value as a one-character string and next to an ASCII digit: only
+        // the ten ASCII digits may be accepted (catches byte-truncating / locale-aware digit tests)
+        let mut b = String::with_capacity(16);
+        for cp in 0u32..=0x10FFFF {
+            let Some(c) = char::from_u32(cp) else { continue };
+            if cp > 0x3000 && cp % 3 != 0 && !(0xFF00..0xFFFF).contains(&cp) && !(0x1D7C0..0x1D800).contains(&cp) {
+                continue; // thinned above the BMP's first planes, except digit-like blocks
+            }
+            b.clear();
+            b.push(c);
+            parse_one::<T>(mode, &b, rep, st);
+            b.clear();
+            b.push('1');
+            b.push(c);
+            parse_one::<T>(mode, &b, rep, st);
+            b.clear();
+            b.push(c);
+            b.push('1');
+            parse_one::<T>(mode, &b, rep, st);
+            n += 3;
+        }
+    }
     n
 }
 
@@ -483,7 +506,7 @@ fn display_and_order<T: NT>(mode: Mode, rng: &mut Rng, rep: &mut Report, st: &mu
         let text_ok = r == Some(true) && buf.as_str() == dec.as_str();
         let back = api("str::parse::<restricted integer>", || buf.as_str().parse::<T>().ok());
         if !text_ok || back != Some(Some(x)) {
-            rep.violation(
+            crate::viol!(rep, 
                 format!("C05:display:{}", T::NAME),
                 format!("Display of {:?} printed {:?}; parsing it back gave {:?}", x, buf.as_str(), back),
                 json!({"kind":"display","type":T::NAME,"input":v}),
@@ -513,7 +536,7 @@ fn display_and_order<T: NT>(mode: Mode, rng: &mut Rng, rep: &mut Report, st: &mu
             None => false,
         };
         if !ok {
-            rep.violation(
+            crate::viol!(rep, 
                 format!("C05:ordering:{}", T::NAME),
                 format!("{}: comparing {} and {} gave {:?}", T::NAME, a, b, r.map(|t| (t.0, t.2))),
                 json!({"kind":"order","type":T::NAME,"a":a,"b":b}),
